@@ -643,5 +643,5 @@ pub fn replay(v: &Value) -> Vec<Failure> {
         let devs: Vec<(String, usize)> = v["devs"].as_array().map(|a| a.iter().map(|d| (d[0].as_str().unwrap_or("").to_string(), d[1].as_u64().unwrap_or(0) as usize)).collect()).unwrap_or_default();
         check(&devs).1
     };
-    fails.into_iter().map(|(signature, detail)| Failure { signature, case: v.clone(), detail }).collect()
+    fails.into_iter().map(|(signature, detail)| Failure { signature, case: v.clone(), detail, hash: 0 }).collect()
 }
